@@ -7,8 +7,8 @@ use crate::{Case, Rng};
 pub const VTYPES: [&str; 14] = [
     "u8", "u16", "u32", "u64", "u128", "usize", "i8", "i16", "i32", "i64", "i128", "isize", "empty", "w3",
 ];
-pub const PROFILES: [&str; 12] =
-    ["std", "lm", "values", "utf8", "serial", "invalid", "nfb", "perm", "mixed", "vacant", "exh", "big"];
+pub const PROFILES: [&str; 13] =
+    ["std", "lm", "values", "utf8", "serial", "invalid", "nfb", "perm", "mixed", "vacant", "exh", "big", "wide"];
 const NFBS: [u32; 6] = [1, 2, 3, 4, 16, 64];
 
 type Sym = u32;
@@ -703,6 +703,69 @@ fn p_big(r: &mut Rng, n: usize) -> Vec<Case> {
     vec![mk(Spec { id: format!("G{}", n), variant, kind, nfb, entry: 'P', vt: "u32" }, utf8, &set, None, &hs)]
 }
 
+/// Wide alphabets: more than 256 distinct pattern characters, so that the char-wise block length
+/// (`alphabet_size.next_power_of_two()`) is 512, 1024 or 2048 and mapped codes exceed 255. A few
+/// long "carrier" patterns cover the alphabet once (rare characters get the high codes), short
+/// patterns make some characters frequent; haystacks walk pattern prefixes and then feed rare,
+/// frequent and foreign characters. Generated as a B/C pair (ids `xw<n>b` / `xw<n>c`).
+fn p_wide(r: &mut Rng, n: usize) -> Vec<Case> {
+    // the driver evaluates the invariants on all nodes x all mapped codes: keep the product small
+    let nchars = match r.below(20) {
+        0..=12 => r.range(257, 290),
+        13..=18 => r.range(513, 540),
+        _ => r.range(1025, 1040),
+    };
+    let step = r.range(1, 3) as Sym;
+    let mut a: Vec<Sym> = (0..nchars as Sym).map(|i| 0x4E00 + i * step).collect();
+    for i in 0..r.below(6) as Sym {
+        a.push(0x1_F600 + i);
+    }
+    if r.pct(30) {
+        a.push(0x10_FFFF);
+    }
+    r.shuffle(&mut a);
+    let mut set: Vec<Word> = vec![];
+    // carriers
+    let mut i = 0;
+    while i < a.len() {
+        let len = r.range(8, 40).min(a.len() - i);
+        set.push(a[i..i + len].to_vec());
+        i += len;
+    }
+    // short patterns over a frequent subset and over everything
+    let hot: Vec<Sym> = (0..r.range(2, 12)).map(|_| r.pick(&a)).collect();
+    for _ in 0..r.range(3, 40) {
+        let w = if r.pct(60) { word(r, &hot, 1, 4) } else { word(r, &a, 1, 4) };
+        set.push(w);
+    }
+    let set = dedup(set);
+    let foreign: Vec<Sym> = vec![0x61, 0x3042, 0x4DFF, 0x4E00 + nchars as Sym * step + 7, 0x2_0000];
+    let mut hs: Vec<Word> = vec![vec![]];
+    for _ in 0..r.range(6, 12) {
+        let mut h: Word = vec![];
+        for _ in 0..r.range(1, 6) {
+            let q = &set[r.below(set.len())];
+            h.extend_from_slice(&q[..r.range(1, q.len())]);
+            match r.below(4) {
+                0 => h.push(r.pick(&a)),
+                1 => h.push(r.pick(&hot)),
+                2 => h.push(r.pick(&foreign)),
+                _ => {}
+            }
+        }
+        hs.push(h);
+    }
+    let kind = r.below(3) as u8;
+    let nfb = pick_nfb(r);
+    ['B', 'C']
+        .iter()
+        .map(|&variant| {
+            let id = format!("xw{}{}", n, variant.to_ascii_lowercase());
+            mk(Spec { id, variant, kind, nfb, entry: 'P', vt: "u32" }, true, &set, None, &hs)
+        })
+        .collect()
+}
+
 /// Exhaustive small scope: item `n` enumerates (variant, kind, ordered list of 1-3 distinct
 /// patterns of length 1-3 over a two-symbol alphabet); every case gets ALL haystacks of length
 /// <= 6 over that alphabet. 2 * 3 * 2380 = 14280 items in total (`EXH_ITEMS`). Validation of the
@@ -774,13 +837,15 @@ pub fn item(profile: &str, r: &mut Rng, n: usize) -> Vec<Case> {
         "vacant" => p_vacant(r, n),
         "exh" => p_exh(n),
         "big" => p_big(r, n),
+        "wide" => p_wide(r, n),
         _ => {
             let x = r.below(100);
             let sub = match x {
                 0..=19 => "std",
                 20..=39 => "lm",
                 40..=54 => "values",
-                55..=63 => "utf8",
+                55..=60 => "utf8",
+                61..=63 => "wide",
                 64..=73 => "serial",
                 74..=85 => "invalid",
                 86..=96 => "perm",
